@@ -26,6 +26,7 @@
 
 #include <deque>
 #include <map>
+#include <fstream>
 #include <set>
 #include <string>
 #include <vector>
@@ -42,6 +43,9 @@ struct Options
     std::vector<std::string> sels;
     std::vector<std::string> recs;
     std::vector<std::string> calls;    // select functions whose body calls / names a function matching
+    std::string knownFile;             // qualified names of the functions that exist in the reference tree
+    std::string namesOut;              // dump the qualified names of all function definitions under the roots
+    std::set<std::string> known;
     bool allEnums = true;
 };
 Options g_opt;
@@ -152,6 +156,8 @@ public:
     json::Object globals;
     std::deque<FnJob> queue;
     std::set<FunctionDecl const*> seen;
+    std::set<FunctionDecl const*> closureFns;
+    std::set<std::string> allNames;
     std::map<LambdaExpr const*, int> lambdaIds;
     int nextFn = 0;
 
@@ -729,6 +735,7 @@ public:
         if (fd)
         {
             o["callee"] = qualName(fd);
+            maybeEnqueueNewHelper(fd);
             if (fd->isNoReturn()) o["noreturn"] = true;
             if (auto const* md = dyn_cast<CXXMethodDecl>(fd))
             {
@@ -906,6 +913,24 @@ public:
         queue.push_back({fd, nextFn++, parent, std::move(qn)});
     }
 
+    // A callee that does not exist in the reference tree (a helper introduced by a later change) is extracted
+    // together with its caller, so that the rule engine can inline it.
+    void maybeEnqueueNewHelper(FunctionDecl const* fd)
+    {
+        if (g_opt.known.empty() || !fd) return;
+        FunctionDecl const* def = nullptr;
+        if (!fd->hasBody(def) || !def) return;
+        if (!inRoots(def->getLocation())) return;
+        if (def->isImplicit() || def->isDefaulted()) return;    // compiler-generated: never in the snapshot
+        if (auto const* md = dyn_cast<CXXMethodDecl>(def))
+            if (md->getParent()->isLambda()) return;
+        std::string qn = qualName(def);
+        if (g_opt.known.count(qn)) return;
+        if (seen.count(def)) return;
+        closureFns.insert(def);
+        enqueue(def, -1, qn);
+    }
+
     std::string templArgs(FunctionDecl const* fd)
     {
         std::string s;
@@ -937,6 +962,17 @@ public:
         f["id"] = job.id;
         f["qname"] = job.qname;
         f["parent_fn"] = job.parent;
+        {
+            // not in the snapshot of the reference tree: a function introduced by a later change
+            bool isLambdaOp = false;
+            if (auto const* md0 = dyn_cast<CXXMethodDecl>(fd)) isLambdaOp = md0->getParent()->isLambda();
+            std::string fileName = fileOf(fd->getLocation());
+            bool underRepo = fileName.compare(0, 6, "/repo/") == 0;
+            if (closureFns.count(fd) ||
+                (!g_opt.known.empty() && underRepo && !isLambdaOp && !fd->isImplicit() && !fd->isDefaulted() &&
+                    job.parent < 0 && !g_opt.known.count(job.qname)))
+                f["new_helper"] = true;
+        }
         f["loc"] = locStr(fd->getLocation());
         f["body_loc"] = locStr(body->getBeginLoc());
         f["end"] = locStr(fd->getEndLoc());
@@ -1634,6 +1670,7 @@ public:
             if (auto const* md = dyn_cast<CXXMethodDecl>(fd))
                 if (md->getParent()->isLambda()) return true;    // reached through the parent
             std::string qn = qualName(fd);
+            if (!g_opt.namesOut.empty() && x.inRoots(fd->getLocation())) x.allNames.insert(qn);
             if (x.selected(fd, qn)) x.enqueue(fd, -1, qn);
             return true;
         }
@@ -1688,6 +1725,13 @@ public:
             FnJob j = queue.front();
             queue.pop_front();
             emitFunction(j);
+        }
+        if (!g_opt.namesOut.empty())
+        {
+            std::error_code ec2;
+            llvm::raw_fd_ostream ns(g_opt.namesOut, ec2);
+            if (!ec2)
+                for (auto& n : allNames) ns << n << "\n";
         }
         json::Object root;
         root["tu"] = sm.getFileEntryForID(sm.getMainFileID())->getName().str();
@@ -1758,6 +1802,8 @@ int main(int argc, char** argv)
         else if (a == "--sel" && i + 1 < argc) g_opt.sels.push_back(argv[++i]);
         else if (a == "--rec" && i + 1 < argc) g_opt.recs.push_back(argv[++i]);
         else if (a == "--calls" && i + 1 < argc) g_opt.calls.push_back(argv[++i]);
+        else if (a == "--known" && i + 1 < argc) g_opt.knownFile = argv[++i];
+        else if (a == "--names-out" && i + 1 < argc) g_opt.namesOut = argv[++i];
         else if (a == "--overlay" && i + 1 < argc)
         {
             std::string o = argv[++i];
@@ -1774,6 +1820,13 @@ int main(int argc, char** argv)
         return 2;
     }
     if (g_opt.roots.empty()) g_opt.roots.push_back("/repo/");
+    if (!g_opt.knownFile.empty())
+    {
+        std::ifstream kf(g_opt.knownFile);
+        std::string line;
+        while (std::getline(kf, line))
+            if (!line.empty()) g_opt.known.insert(line);
+    }
     clang::tooling::FixedCompilationDatabase db(".", flags);
     clang::tooling::ClangTool tool(db, {tu});
     std::vector<std::unique_ptr<llvm::MemoryBuffer>> keep;
